@@ -342,6 +342,7 @@ def plan(ctx):
                    SD + "SpectralDensity._make_overdamped_brownian", SD + "SpectralDensity._make_underdamped_brownian",
                    SD + "SpectralDensity._make_underdamped", SD + "SpectralDensity.get_FTCorrelationFunction"]
     p.lemmas = [lemma_rates, lemma_detailed_balance, lemma_foerster, lemma_ft_detailed_balance]
+    p.oracles = ["native/oracle_C06.py"]
     p.extra_axioms = list(ctx.registry.c06_axioms) + [z3.Real("u_cm2int") > 0, z3.Real("u_kB_intK") > 0, z3.Real("u_kB_int") > 0,
                                                        z3.Real("c_pi") > 3, z3.Real("c_c") > 0, z3.Real("c_hbar") > 0, z3.Real("c_k") > 0, z3.Real("c_e") > 0]
     p.not_decided = ["golden-rule value of downhill rates within the accuracy of the numerical half-Fourier transform",
